@@ -18,8 +18,10 @@ Models, as coded,
 Dictionaries are association lists (`Model/Assoc.lean`); the order of entries is irrelevant to
 every function here (all accesses are by key), the harness compares key-sorted results.
 
-Not modelled: the `%(variable)s` interpolation of environment values with workflow variables in
-`environmentForNode` (`FlowIR.fill_in`); the harness keeps `%` out of generated values.
+The `%(variable)s` interpolation of environment values with workflow variables (`FlowIR.fill_in` in
+`environmentForNode` and in `FlowIRConcrete.instance`) is modelled in `Model/C17Vars.lean`, on top of this file
+(`envForNodeV`, `instDoc`); the functions here are the special case of values without `%(name)s` references
+(`Props.C17.value_without_references_unchanged`).
 -/
 namespace St4sd.Env
 open St4sd.Str St4sd.Assoc
